@@ -238,3 +238,11 @@ Theorem address_level_response_with_config : forall B W, 0 < W -> forall be cf b
   addr_response_with_config B W be cf buf rp = response_with_config (env_of W be) cf buf rp.
 Proof. exact addr_response_with_config_model. Qed.
 Print Assumptions address_level_response_with_config.
+
+(* ---- the scanner loop shells and SWAR helpers translated from /repo/src/simd/*.rs on this run are the ones
+   `Backends.env_of` is built from (Proofs/TieLoops.v, TieSwarFns.v): a rewritten loop shell breaks this obligation of
+   this property too ---- *)
+From HV.Proofs Require TieLoops TieSwarFns.
+Theorem loop_shells_of_this_run : TieLoops.loop_shells_tied.
+Proof. exact TieLoops.loop_shells_tied_pf. Qed.
+Print Assumptions loop_shells_of_this_run.
